@@ -26,7 +26,8 @@ RULE = ('histories over all DefaultHandler callbacks (write_keepalive on/off) wi
         'rotations, restart after any event, crash inside the last write at a generated (exhaustive tier: every) byte '
         'offset followed by restart, then further events and an audit of all files. Non-trivial = >= 1 rotation and >= 1 '
         'restart, or a torn write; distinct by history. Peer address spelled as IPv4, lower-case and upper-case IPv6; update '
-        'payloads synthetic and as decoded by yabgp from one well-formed UPDATE per address family.')
+        'payloads synthetic (also 10-20 KB records of 500 / 1000 prefixes) and as decoded by yabgp from one well-formed UPDATE '
+        'per address family.')
 ASSUMPTIONS = ['update payloads are synthetic JSON-safe ones plus what yabgp itself decodes from one well-formed UPDATE per address '
                'family (octet-string results only where stdlib json and simplejson both refuse them)',
                'torn-write model: a prefix of the bytes of the last append survives (append-only file, no reordering)',
@@ -123,8 +124,15 @@ def _decoded_payloads():
 DECODED = _decoded_payloads()
 
 
+# records far longer than a BGP message (a fully packed UPDATE lists ~1000 prefixes; its JSON text is 10-20 KB)
+BIG = [{'attr': {'1': 0, '2': [[2, [65001, 65002]]], '3': '10.0.0.1'}, 'nlri': ['10.%d.%d.0/24' % (i >> 8, i & 255) for i in range(n)],
+        'withdraw': [], 'afi_safi': 'ipv4'} for n in (500, 1000)]
+
+
 def payload_for(kind, idx):
     if kind in ('update_received', 'on_update_error'):
+        if idx >= 200:
+            return BIG[(idx - 200) % len(BIG)]
         if idx >= 100:
             return DECODED[(idx - 100) % len(DECODED)][1]
         return PAYLOADS[idx % 4]
@@ -331,9 +339,11 @@ def run_case(case):
 
 
 ev_op = st.tuples(st.just('ev'), st.sampled_from([0, 0, 0, 1, 2, 3, 4, 5, 6, 7, 8, 9]),
-                  st.one_of(st.integers(0, 7), st.integers(0, 7), st.integers(100, 100 + len(DECODED) - 1))).map(list)
+                  st.one_of(st.integers(0, 7), st.integers(0, 7), st.integers(100, 100 + len(DECODED) - 1),
+                            st.sampled_from([200, 201]))).map(list)
 op = st.one_of(ev_op, ev_op, ev_op, st.just(['restart']),
-               st.tuples(st.just('torn'), st.sampled_from([0, 0, 1, 3, 6, 7]), st.integers(0, 7), st.integers(0, 400)).map(list))
+               st.tuples(st.just('torn'), st.sampled_from([0, 0, 1, 3, 6, 7]), st.one_of(st.integers(0, 7), st.sampled_from([200, 201])),
+                         st.one_of(st.integers(0, 400), st.integers(0, 30000))).map(list))
 case_strategy = st.fixed_dictionaries({'max_size': st.sampled_from([150, 400, 1000, 10 ** 9]), 'write_keepalive': st.booleans(),
                                        'peer': st.sampled_from([0, 0, 1, 2, 3]),
                                        'ops': st.lists(op, min_size=1, max_size=30)})
@@ -358,7 +368,8 @@ def run_shard(spec, seed, col, tier):
                 col.fail(sig, case, detail)
         hyp_run(col, case_strategy, body, seed, spec['examples'])
     elif spec['kind'] == 'exh':
-        alpha = [['ev', 0, 0], ['ev', 0, 2], ['ev', 7, 4], ['restart'], ['torn', 0, 0, 5], ['torn', 0, 2, 150], ['torn', 7, 4, 1]]
+        alpha = [['ev', 0, 0], ['ev', 0, 2], ['ev', 7, 4], ['restart'], ['torn', 0, 0, 5], ['torn', 0, 2, 150], ['torn', 7, 4, 1],
+                 ['ev', 0, 201], ['torn', 0, 201, 9000]]
         seqs = list(itertools.product(range(len(alpha)), repeat=spec['len']))[spec['part']::spec['parts']]
         for ms in (150, 10 ** 9):
             for s in seqs:
